@@ -76,7 +76,8 @@ def docJwkValid (j : Json) : Bool :=
   let f := fun k => stringEntry (j.get? k)
   if f "kty" = "" then false
   else if f "kty" = "RSA" then f "n" ≠ "" && f "e" ≠ ""
-  else f "crv" ≠ "" && f "x" ≠ "" && (f "kty" ≠ "EC" || f "y" ≠ "")   -- an EC key has two coordinates (D38)
+  -- an EC key has two coordinates (D38); a BLS12-381 G2 key, also written with kty EC, is one compressed point (D48)
+  else f "crv" ≠ "" && f "x" ≠ "" && (f "kty" ≠ "EC" || f "y" ≠ "" || f "crv" = "BLS12381_G2")
 
 /-- the JWK / base58 rule at the end of `validatePublicKeys` -/
 def keyMaterialOK (pk : Json) : Bool :=
